@@ -667,7 +667,7 @@ class Diag(Linop):
                 if self.iaxis is None:
                     output_n = linop(
                         input[istart:iend].reshape(linop.ishape)
-                    ).ravel()
+                    )
                 else:
                     ndim = len(linop.ishape)
                     axis = self.iaxis % ndim
@@ -680,7 +680,7 @@ class Diag(Linop):
                     output_n = linop(input[islc])
 
                 if self.oaxis is None:
-                    output[ostart:oend] = output_n
+                    output[ostart:oend] = output_n.ravel()
                 else:
                     ndim = len(linop.oshape)
                     axis = self.oaxis % ndim
